@@ -58,6 +58,8 @@ def same(a, b):
         return all(any(same(x, y) for y in b) for x in a)
     if isinstance(a, memoryview):
         return bytes(a) == bytes(b)
+    if isinstance(a, BaseException):
+        return same(list(a.args), list(b.args)) and same({k: v for k, v in vars(a).items() if k != "_pyroTraceback"}, {k: v for k, v in vars(b).items() if k != "_pyroTraceback"})
     return a == b
 
 
